@@ -4396,6 +4396,258 @@ Section Sem.
     Qed.
   End HookIndependenceRun.
 
+  (* ================================================================ the delivery log only grows
+     Whatever a source program does under the reference semantics, deliveries are appended in the order the
+     notifications happen and never dropped or rewritten (for arbitrary analyses).  Consequence: the bracket
+     structure of the events of one construct, e.g. a covered call whose callee returns: everything the callee
+     reports lies between the pre_call and the post_call deliveries of that call. *)
+  Section Grows.
+    Definition grows {A} (m : M A) : Prop :=
+      forall s, exists d, dels (eng (snd (m s))) = dels (eng s) ++ d.
+
+    Lemma grows_ret {A} (a : A) : grows (ret a).
+    Proof. intros s. exists []. rewrite app_nil_r. reflexivity. Qed.
+    Lemma grows_keep {A} (m : M A) : (forall s, eng (snd (m s)) = eng s) -> grows m.
+    Proof. intros He s. exists []. rewrite He, app_nil_r. reflexivity. Qed.
+    Lemma grows_bind {A B} (m : M A) (k : A -> M B) : grows m -> (forall a, grows (k a)) -> grows (bind m k).
+    Proof.
+      intros Hm Hk s. unfold bind. destruct (Hm s) as [d1 E1]. destruct (m s) as [r s1]. cbn [snd] in E1.
+      destruct r; try (exists d1; exact E1).
+      destruct (Hk a s1) as [d2 E2]. exists (d1 ++ d2). rewrite E2, E1, app_assoc. reflexivity.
+    Qed.
+    Lemma grows_catch {A} (m : M A) : grows m -> grows (catch m).
+    Proof.
+      intros Hm s. unfold catch. destruct (Hm s) as [d E]. destruct (m s) as [r s1]. cbn [snd] in E.
+      exists d. destruct r; exact E.
+    Qed.
+    Lemma grows_const {A} (r : res A) : grows (fun s => (r, s)).
+    Proof. intros s. exists []. rewrite app_nil_r. reflexivity. Qed.
+    Lemma grows_notify f args : grows (notify f args).
+    Proof.
+      Transparent notify. intros s. unfold notify.
+      pose proof (cie_loop_dels earg e_filt_str e_as_path e_is_iid line_of analyses 0 f args (eng s) None) as [Dl _].
+      unfold call_if_exists. destruct (cie_loop earg e_filt_str e_as_path e_is_iid line_of 0 analyses f args (eng s) None) as [r e'].
+      cbn [fst snd eng] in *. eexists. exact Dl. Opaque notify.
+    Qed.
+    Lemma grows_ev f n args : grows (ev f n args).
+    Proof. Transparent ev. unfold ev. Opaque ev. apply grows_notify. Qed.
+    Lemma grows_prim {A} (p : world -> pres A * world) : grows (prim p).
+    Proof. apply grows_keep. apply eng_prim. Qed.
+    Lemma grows_prim_total {A} (p : world -> A * world) : grows (prim_total p).
+    Proof. apply grows_keep. apply eng_prim_total. Qed.
+    Lemma grows_raise_builtin {A} c m : grows (@raise_builtin A c m).
+    Proof. apply grows_keep. apply eng_raise_builtin. Qed.
+    Lemma grows_lookup x : grows (lookup x).
+    Proof. apply grows_keep. apply eng_lookup. Qed.
+    Lemma grows_assign x v : grows (assign x v).
+    Proof. apply grows_keep. apply eng_assign. Qed.
+    Lemma grows_unbind x : grows (unbind x).
+    Proof. apply grows_keep. apply eng_unbind. Qed.
+    Lemma grows_truth v : grows (truth v).
+    Proof. Transparent truth. unfold truth. Opaque truth. apply grows_prim. Qed.
+    Lemma grows_RE n : grows (RE n).
+    Proof. Transparent RE. unfold RE. Opaque RE. apply grows_bind; [apply grows_ev|intros; apply grows_ret]. Qed.
+    Lemma grows_CF n : grows (CF n).
+    Proof. Transparent CF. unfold CF. Opaque CF. apply grows_bind; [apply grows_ev|intros; apply grows_ret]. Qed.
+    Lemma grows_announce on cf n : grows (announce on cf n).
+    Proof.
+      Transparent announce. unfold announce. Opaque announce. destruct on; [|apply grows_ret].
+      apply grows_bind; [apply grows_RE|intros; destruct cf; [apply grows_CF|apply grows_ret]].
+    Qed.
+
+    Ltac gr := repeat first
+      [ apply grows_ret | apply grows_ev | apply grows_notify | apply grows_prim | apply grows_prim_total | apply grows_truth
+      | apply grows_lookup | apply grows_assign | apply grows_unbind | apply grows_raise_builtin | apply grows_announce
+      | apply grows_RE | apply grows_CF | apply grows_const | apply (grows_keep); reflexivity
+      | eassumption
+      | apply grows_catch
+      | apply grows_bind; [|intros ?]
+      | match goal with |- grows (if ?b then _ else _) => destruct b end
+      | match goal with |- grows (match ?x with _ => _ end) => destruct x end ].
+
+    Variable H : list string.
+    Variable call : nat -> list val -> M val.
+    Variable bound : nat.
+    Hypothesis Hcall : forall f a, grows (call f a).
+
+    Lemma grows_rnot n v t : grows (rnot_events H n v t).
+    Proof. Transparent rnot_events. unfold rnot_events. Opaque rnot_events. gr. Qed.
+
+    Theorem grows_expr :
+      (forall e, src_e e = true -> forall c, grows (reval H call c e) /\ grows (reval_tv H call c e))
+      /\ (forall es, src_es es = true -> forall c, grows (reval_list H call c es))
+      /\ (forall r, src_c r = true -> forall c n on ann first l, grows (reval_cmps H call c n on ann first l r))
+      /\ (forall r : rcmps, True).
+    Proof.
+      assert (Hdef : forall e c, jumpy e = false -> grows (reval H call c e) -> grows (reval_tv H call c e)).
+      { intros e c J G. rewrite reval_tv_unfold, <- reval_unfold.
+        destruct e; try discriminate J; try (destruct o; try discriminate J); gr. }
+      Ltac ih := match goal with
+        | IH : forall c : rctx, grows (reval _ _ c ?e) /\ _ |- grows (reval _ _ ?c' ?e) => exact (proj1 (IH c'))
+        | IH : forall c : rctx, _ /\ grows (reval_tv _ _ c ?e) |- grows (reval_tv _ _ ?c' ?e) => exact (proj2 (IH c'))
+        | IH : forall c : rctx, grows (reval_list _ _ c ?es) |- grows (reval_list _ _ ?c' ?es) => exact (IH c')
+        | IH : forall (c : rctx) (n : nid) (on ann : bool) (first l : val), grows (reval_cmps _ _ c n on ann first l ?r)
+          |- grows (reval_cmps _ _ ?c' ?n' ?on' ?ann' ?f' ?l' ?r) => exact (IH c' n' on' ann' f' l')
+        end.
+      Ltac gr2 := repeat first [ ih | apply Hcall | apply grows_rnot
+        | match goal with |- grows (reval_body _ _ _ _ _ _ ?c ?e) => is_var e; rewrite <- (reval_unfold H call c e) end
+        | apply grows_ret | apply grows_ev | apply grows_notify | apply grows_prim | apply grows_prim_total | apply grows_truth
+        | apply grows_lookup | apply grows_assign | apply grows_unbind | apply grows_raise_builtin | apply grows_announce
+        | apply grows_RE | apply grows_CF | apply grows_const | apply grows_catch
+        | apply grows_bind; [|intros ?]
+        | match goal with |- grows (if ?b then _ else _) => destruct b end
+        | match goal with |- grows (let (_, _) := ?p in _) => destruct p end
+        | match goal with |- grows (match ?x with _ => _ end) => destruct x end ].
+      Ltac spl := repeat match goal with Hs : (_ && _) = true |- _ => apply andb_true_iff in Hs; destruct Hs end.
+      Ltac useih := repeat match goal with
+        | IH : ?P = true -> _, Hs : ?P = true |- _ => specialize (IH Hs)
+        end.
+      apply expr_all_ind; try (intros; discriminate); try (intros; exact I).
+      1-12: (intros; match goal with Hs : src_e _ = true |- _ => simpl in Hs end; spl; useih; split;
+             [ rewrite reval_unfold; cbn [reval_body]; unfold r_do_call, stuck; gr2
+             | first [ apply Hdef; [reflexivity|rewrite reval_unfold; cbn [reval_body]; unfold r_do_call, stuck; gr2]
+                     | rewrite reval_tv_unfold; cbv zeta; unfold stuck; gr2 ] ]).
+      all: try (intros; match goal with Hs : _ = true |- _ => simpl in Hs end; spl; useih; first [rewrite reval_list_unfold|rewrite reval_cmps_unfold]; gr2).
+    Qed.
+
+    Notation GE := (proj1 grows_expr).
+    Lemma grows_ropt c o : src_oe o = true -> grows (reval_opt H call c o).
+    Proof. destruct o as [e|]; intros Hs; unfold reval_opt; [|apply grows_ret]. apply grows_bind; [exact (proj1 (GE e Hs c))|intros; apply grows_ret]. Qed.
+    Lemma grows_store t v : src_t t = true -> grows (rstore H call t v).
+    Proof.
+      destruct t as [x|n e x|n e i]; intros Hs; simpl in Hs; cbn [rstore]; [apply grows_assign| |].
+      - apply grows_bind; [exact (proj1 (GE e Hs rc_tgt))|intros; apply grows_prim].
+      - apply andb_true_iff in Hs; destruct Hs as [Hs1 Hs2].
+        apply grows_bind; [exact (proj1 (GE e Hs1 rc_tgt))|intros]. apply grows_bind; [exact (proj1 (GE i Hs2 rc_tgt))|intros; apply grows_prim].
+    Qed.
+    Lemma grows_store_all ts v : forallb src_t ts = true -> grows (rstore_all H call ts v).
+    Proof.
+      induction ts as [|t r IH]; intros Hs; simpl in Hs; cbn [rstore_all]; [apply grows_ret|].
+      apply andb_true_iff in Hs; destruct Hs as [Hs1 Hs2]. apply grows_bind; [exact (grows_store t v Hs1)|intros; apply IH; exact Hs2].
+    Qed.
+    (* plain evaluation (targets of augmented assignments) leaves the engine alone through program-function calls only *)
+    Lemma grows_plain :
+      (forall e, src_e e = true -> grows (eval call e) /\ grows (eval_test call e))
+      /\ (forall es, src_es es = true -> grows (eval_list call es))
+      /\ (forall r, src_c r = true -> forall l, grows (eval_cmps call l r))
+      /\ (forall r : rcmps, True).
+    Proof.
+      Ltac ihp := match goal with
+        | IH : grows (eval _ ?e) /\ _ |- grows (eval _ ?e) => exact (proj1 IH)
+        | IH : _ /\ grows (eval_test _ ?e) |- grows (eval_test _ ?e) => exact (proj2 IH)
+        | IH : grows (eval_list _ ?es) |- grows (eval_list _ ?es) => exact IH
+        | IH : forall l, grows (eval_cmps _ l ?r) |- grows (eval_cmps _ ?l' ?r) => exact (IH l')
+        end.
+      Ltac grp := repeat first [ ihp | apply Hcall
+        | apply grows_ret | apply grows_prim | apply grows_prim_total | apply grows_truth | apply grows_lookup
+        | apply grows_bind; [|intros ?]
+        | match goal with |- grows (if ?b then _ else _) => destruct b end
+        | match goal with |- grows (match ?x with _ => _ end) => destruct x end ].
+      apply expr_all_ind; try (intros; discriminate); try (intros; exact I).
+      1-12: (intros; match goal with Hs : src_e _ = true |- _ => simpl in Hs end; spl; useih; split;
+             [ rewrite eval_unfold; cbn [eval_body]; unfold do_call; grp
+             | rewrite eval_test_unfold; try (rewrite eval_unfold; cbn [eval_body]); unfold do_call; grp ]).
+      all: try (intros; match goal with Hs : _ = true |- _ => simpl in Hs end; spl; useih; first [rewrite eval_list_unfold|rewrite eval_cmps_unfold]; grp).
+    Qed.
+
+    Notation GP := (proj1 grows_plain).
+    Theorem grows_stmt :
+      (forall s, src_s s = true -> forall k, grows (rexec H call bound k s))
+      /\ (forall ss, src_ss ss = true -> forall k, grows (rexec_list H call bound k ss))
+      /\ (forall hs, src_hs hs = true -> forall k tryn e, grows (rexec_handlers H call bound k tryn e hs)).
+    Proof.
+      Ltac ihs := match goal with
+        | IH : forall k : rsctx, grows (rexec_list _ _ _ k ?ss) |- grows (rexec_list _ _ _ ?k' ?ss) => exact (IH k')
+        | IH : forall k : rsctx, grows (rexec _ _ _ k ?s) |- grows (rexec _ _ _ ?k' ?s) => exact (IH k')
+        | IH : forall (k : rsctx) (tryn : nid) (e : val), grows (rexec_handlers _ _ _ k tryn e ?hs)
+          |- grows (rexec_handlers _ _ _ ?k' ?t' ?e' ?hs) => exact (IH k' t' e')
+        end.
+      Ltac grs := repeat first [ ihs | eassumption
+        | apply grows_ret | apply grows_ev | apply grows_notify | apply grows_prim | apply grows_prim_total | apply grows_truth
+        | apply grows_lookup | apply grows_assign | apply grows_unbind | apply grows_raise_builtin | apply grows_announce
+        | apply grows_const | apply grows_catch | apply grows_store_all; assumption | apply grows_ropt; assumption
+        | apply (grows_keep); reflexivity
+        | apply grows_bind; [|intros ?]
+        | match goal with |- grows (if ?b then _ else _) => destruct b end
+        | match goal with |- grows (let (_, _) := ?p in _) => destruct p end
+        | match goal with |- grows (match ?x with _ => _ end) => destruct x end ].
+      assert (Htest : forall c leaf n (on : bool), src_e c = true ->
+                grows (if on then
+                         bind (test_value H call rc0 c) (fun vt =>
+                         bind (announce true true n) (fun _ =>
+                         bind (ev "enter_control_flow" n [AV (fst vt)]) (fun hi =>
+                         bind (ev leaf n [AV (fst vt)]) (fun lo => decide vt lo hi))))
+                       else bind (reval_tv H call rc0 c) (fun ct => ret (snd ct)))).
+      { intros c leaf n on Hs. destruct (GE c Hs rc0) as [T1 T2]. unfold test_value, decide. grs. }
+      apply stmt_all_ind.
+      - (* SExpr *) intros e Hs k. simpl in Hs. Transparent rexec. cbn [rexec]. Opaque rexec. pose proof (proj1 (GE e Hs rc0)). grs.
+      - (* SAssign *) intros n ts e Hs k. simpl in Hs. spl. Transparent rexec. cbn [rexec]. Opaque rexec.
+        pose proof (proj1 (GE e H1 (rc_str rc0))). grs.
+      - (* SAug *) intros n t o e Hs k. simpl in Hs. spl. Transparent rexec raug_events. cbn [rexec]. unfold raug_events. Opaque rexec raug_events.
+        pose proof (proj1 (GE e H1 (rc_str rc0))).
+        destruct t as [x|tn be x|tn be ie]; simpl in H0; spl;
+          repeat match goal with Hb : src_e ?b = true |- _ => pose proof (proj1 (GP b Hb)); clear Hb end; grs.
+      - (* SIf *) intros n c body IHb orelse IHo Hs k. simpl in Hs. spl. useih. rewrite rexec_SIf. unfold exit_event.
+        pose proof (Htest c "enter_if" n (cov H "enter_if") H0). grs.
+      - (* SWhile *) intros n c body IHb orelse IHo Hs k. simpl in Hs. spl. useih. rewrite rexec_SWhile.
+        pose proof (Htest c "enter_while" n (cov H "enter_while") H0) as HT.
+        assert (Hl : forall j, grows (rwloop H call bound k n c body orelse j)); [|apply Hl].
+        induction j as [|j IHj]; [apply grows_const|]. cbn [rwloop]. grs.
+      - (* SFor *) intros n x it body IHb orelse IHo Hs k. simpl in Hs. spl. useih. rewrite rexec_SFor.
+        pose proof (proj1 (GE it H0 rc0)). apply grows_bind; [assumption|intros iterable]. apply grows_bind; [apply grows_prim|intros itv].
+        assert (Hl : forall j, grows (rfloop H call bound k n x itv iterable body orelse j)); [|apply Hl].
+        induction j as [|j IHj]; [apply grows_const|]. cbn [rfloop]. unfold for_exit, rfor_answer. grs.
+      - (* SBreak *) intros n _ k. Transparent rexec. cbn [rexec]. Opaque rexec. unfold rbrk. grs.
+      - (* SContinue *) intros n _ k. Transparent rexec. cbn [rexec]. Opaque rexec. unfold rbrk. grs.
+      - (* SPass *) intros _ k. Transparent rexec. cbn [rexec]. Opaque rexec. apply grows_ret.
+      - (* SAssert *) intros n c m Hs k. simpl in Hs. spl. Transparent rexec. cbn [rexec]. Opaque rexec.
+        destruct (GE c H0 rc0) as [T1 T2]. unfold test_value, decide, stuck. grs.
+      - (* SRaise *) intros n ex ca Hs k. simpl in Hs. spl. Transparent rexec. cbn [rexec]. Opaque rexec. unfold stuck. grs.
+      - (* STry *) intros n body IHb hs IHh orelse IHo final IHf Hs k. simpl in Hs. spl. useih. rewrite rexec_STry. unfold reraise. grs.
+      - (* SReturn *) intros n e Hs k. simpl in Hs. Transparent rexec. cbn [rexec]. Opaque rexec.
+        apply grows_bind; [destruct e as [a|]; [exact (proj1 (GE a Hs rc0))|apply grows_ret]|intros v]. grs.
+      - (* SDef *) intros n fid name _ k. Transparent rexec. cbn [rexec]. Opaque rexec. apply grows_assign.
+      - (* Snil *) intros _ k. rewrite rexec_list_nil. apply grows_ret.
+      - (* Scons *) intros s0 IHs r IHr Hs k. simpl in Hs. spl. useih. rewrite rexec_list_cons. grs.
+      - (* Hnil *) intros _ k tryn e. rewrite rexec_handlers_nil. apply (grows_const (Exc e)).
+      - (* Hcons *) intros ty name body IHb rest IHr Hs k tryn e. simpl in Hs. spl. useih. rewrite rexec_handlers_cons. unfold reraise.
+        pose proof (grows_ropt rc0 ty H0). grs.
+    Qed.
+  End Grows.
+
+  Section GrowsRun.
+    Variable H : list string.
+    Variable funs : list fundef.
+    Hypothesis funs_src : forallb (fun fd => src_ss (f_body fd)) funs = true.
+
+    Theorem grows_fun : forall fuel fid args, grows (rrun_fun funs H fuel fid args).
+    Proof.
+      induction fuel as [|f IH]; intros fid args; [apply grows_const|].
+      cbn [rrun_fun]. destruct (nth_error funs fid) as [fd|] eqn:E; [|apply (grows_const (Stuck "no such function"))].
+      assert (Hs : src_ss (f_body fd) = true).
+      { apply nth_error_In in E. rewrite forallb_forall in funs_src. apply funs_src; exact E. }
+      cbv zeta. apply grows_bind.
+      - intros s. unfold push_frame. destruct (Nat.eqb (length args) (length (f_params fd))); [exists []; rewrite app_nil_r; reflexivity|apply grows_raise_builtin].
+      - intros _. apply grows_bind.
+        + apply grows_catch.
+          pose proof (proj1 (proj2 (grows_stmt H (rrun_fun funs H f) f IH)) (f_body fd) Hs {| r_loop := None; r_fn := Some (f_nid fd, f_name fd) |}) as HB.
+          repeat first [ exact HB | apply grows_ret | apply grows_ev | apply grows_announce | apply grows_bind; [|intros ?]
+                       | match goal with |- grows (if ?b then _ else _) => destruct b end ].
+        + intros r. apply grows_bind; [apply grows_keep; reflexivity|intros _].
+          destruct r; first [apply grows_ret | apply grows_const].
+    Qed.
+
+    Theorem grows_module fuel wrapped main : src_ss main = true -> grows (rrun_module funs H fuel wrapped main).
+    Proof.
+      intros Hs. unfold rrun_module.
+      pose proof (proj1 (proj2 (grows_stmt H (rrun_fun funs H fuel) fuel (grows_fun fuel))) main Hs {| r_loop := None; r_fn := None |}) as HB.
+      repeat first [ exact HB | apply grows_ret | apply grows_notify | apply grows_catch | apply grows_const | apply (grows_const (Exc _))
+                   | apply grows_bind; [|intros ?]
+                   | match goal with |- grows (if ?b then _ else _) => destruct b end
+                   | match goal with |- grows (match ?x with _ => _ end) => destruct x end ].
+    Qed.
+  End GrowsRun.
+
 
 
 End Sem.
